@@ -17,15 +17,17 @@
   include_replaced_by_target
   fallback_iff_missing
   missing_without_fallback_raises
+  marker_free_same_results
+  inline_real_eq_runtime_partial
 -/
-import Genshi.Lemmas.InclMono
+import Genshi.Lemmas.InclErase
 import Genshi.Gen.Incl
 namespace Genshi.Props.C11
 open Genshi.Incl
 
 /-- the simulation at every fuel: entering related streams in related contexts gives related results -/
 theorem sim {T : List Name} {files : Files} (hH : inH T files = true) :
-    ∀ f : Nat, JRel T files (render false files f) (render true files f)
+    ∀ f : Nat, JRel T files (render .runtime files f) (render .inlineM files f)
   | 0 => by intro z rng raw prep s s' _ _ _; exact True.intro
   | f + 1 => by
     intro z rng raw prep s s' hp hz h
@@ -47,7 +49,7 @@ theorem inline_eq_runtime_partial (T : List Name) (files : Files) (hH : inH T fi
     renderInline files entry kind data fuel = renderRuntime files entry kind data fuel := by
   have hc0 : CacheInv T files (St.init data).cache := by intro n b h; simp [St.init] at h
   have hl := loadOK_of_inH hH entry kind (St.init data).cache hc0
-  simp only [renderInline, renderRuntime, loadT, if_true, Bool.false_eq_true, if_false]
+  simp only [renderInline, renderRuntime, loadT]
   cases hraw : loadRaw files entry kind with
   | fuel => simp [hraw] at hl
   | err e =>
@@ -61,8 +63,8 @@ theorem inline_eq_runtime_partial (T : List Name) (files : Files) (hH : inH T fi
       ⟨rfl, rfl, .nil, .nil, hc'⟩
     have := simL (loadOK_of_inH hH) (sim hH fuel) hp .full _ _ (fun _ => rfl) h0
     revert this
-    cases renderL false files (render false files fuel) Rng.full body (St.init data) <;>
-      cases renderL true files (render true files fuel) Rng.full body' { St.init data with cache := c' } <;>
+    cases renderL .runtime files (render .runtime files fuel) Rng.full body (St.init data) <;>
+      cases renderL .inlineM files (render .inlineM files fuel) Rng.full body' { St.init data with cache := c' } <;>
       simp [RRel]
     · intro h; exact h.symm
     · intro h _; exact h.symm
@@ -99,7 +101,7 @@ theorem more_fuel_same_result (files : Files) (entry : Name) (kind : Kind) (data
     {f g : Nat} (hfg : f ≤ g) :
     (∀ r, renderRuntime files entry kind data f = r → r ≠ .fuel → renderRuntime files entry kind data g = r) ∧
     (∀ r, renderInline files entry kind data f = r → r ≠ .fuel → renderInline files entry kind data g = r) := by
-  have key : ∀ inl : Bool,
+  have key : ∀ inl : Mode,
       Le ((loadT inl files entry kind (St.init data)).bind fun r =>
             (renderL inl files (render inl files f) .full r.1 r.2).map (·.1))
          ((loadT inl files entry kind (St.init data)).bind fun r =>
@@ -107,12 +109,12 @@ theorem more_fuel_same_result (files : Files) (entry : Name) (kind : Kind) (data
     Le.bind (Le.refl _) fun r => Le.map _ (renderL_le inl files (render_le inl files hfg) r.1 .full r.2)
   constructor
   · intro r h hr
-    have h1 : Le (renderRuntime files entry kind data f) (renderRuntime files entry kind data g) := key false
+    have h1 : Le (renderRuntime files entry kind data f) (renderRuntime files entry kind data g) := key .runtime
     rcases h1 with h1 | h1
     · exact absurd (h.symm.trans h1) hr
     · exact h1.symm.trans h
   · intro r h hr
-    have h1 : Le (renderInline files entry kind data f) (renderInline files entry kind data g) := key true
+    have h1 : Le (renderInline files entry kind data f) (renderInline files entry kind data g) := key .inlineM
     rcases h1 with h1 | h1
     · exact absurd (h.symm.trans h1) hr
     · exact h1.symm.trans h
@@ -126,6 +128,72 @@ theorem result_unique (files : Files) (entry : Name) (kind : Kind) (data : List 
   · exact ((more_fuel_same_result files entry kind data hfg).1 r h hr).symm.trans h'
   · exact (((more_fuel_same_result files entry kind data hfg).1 r' h' hr').symm.trans h).symm
 
+/-! ## the cost markers are only an accounting device -/
+
+theorem mapE_map_fst (x : R) : (mapE x).map (·.1) = x.map (·.1) := by
+  cases x <;> rfl
+
+/-- the code keeps no markers in prepared streams (`renderInlineReal`).  For every file set: a
+result reached by the marked variant is reached by the marker-free one with the same fuel, and a
+result reached by the marker-free one is reached by the marked one with enough fuel -/
+theorem marker_free_same_results (files : Files) (entry : Name) (kind : Kind) (data : List (Name × Value))
+    (r : Res (List Ev)) (hr : r ≠ .fuel) :
+    (∀ f, renderInline files entry kind data f = r → renderInlineReal files entry kind data f = r) ∧
+    (∀ f, renderInlineReal files entry kind data f = r → ∃ g, renderInline files entry kind data g = r) := by
+  have hload := loadT_erase files entry kind (St.init data)
+  have hinit : eraseSt (St.init data) = St.init data := rfl
+  rw [hinit] at hload
+  constructor
+  · intro f h
+    simp only [renderInline, renderInlineReal, hload] at h ⊢
+    cases hl : loadT .inlineM files entry kind (St.init data) with
+    | fuel => simp [hl] at h; exact absurd h.symm hr
+    | err e => simpa [hl] using h
+    | ok p =>
+      obtain ⟨body, st1⟩ := p
+      simp only [hl, Res.bind_ok, Res.map_ok] at h ⊢
+      have hd := erase_down files (f + 1) .full body st1
+      rw [render_succ, render_succ] at hd
+      rcases hd with hd | hd
+      · have : renderL .inlineM files (render .inlineM files f) .full body st1 = .fuel := by
+          cases hx : renderL .inlineM files (render .inlineM files f) .full body st1 <;> simp_all [mapE]
+        rw [this] at h; exact absurd h.symm hr
+      · rw [← hd, mapE_map_fst]; exact h
+  · intro f h
+    simp only [renderInline, renderInlineReal, hload] at h ⊢
+    cases hl : loadT .inlineM files entry kind (St.init data) with
+    | fuel => simp [hl] at h; exact absurd h.symm hr
+    | err e => exact ⟨0, by simpa [hl] using h⟩
+    | ok p =>
+      obtain ⟨body, st1⟩ := p
+      simp only [hl, Res.bind_ok, Res.map_ok] at h ⊢
+      have hu := erase_up files (f + 1) .full body st1
+      rw [render_succ] at hu
+      rcases hu with hu | ⟨g0, y, hy, hm⟩
+      · rw [hu] at h; exact absurd h.symm hr
+      · refine ⟨g0, ?_⟩
+        have : render .inlineM files (g0 + 1) .full body st1 = y := hy (g0 + 1) (by omega)
+        rw [render_succ] at this
+        rw [this, ← mapE_map_fst, hm]; exact h
+
+/-
+  The statement about the code as it is (no markers).  Full statement (false, same witnesses):
+    ∀ files entry kind data r, r ≠ .fuel → ((∃ f, renderInlineReal … f = r) ↔ (∃ f, renderRuntime … f = r))
+  Proved under `inH`: the two modes reach the same results (events or error); a result reached in
+  run-time mode with fuel `f` is reached in inline mode with the same `f` (inline mode needs less
+  stack), the converse may need more.
+-/
+theorem inline_real_eq_runtime_partial (T : List Name) (files : Files) (hH : inH T files = true)
+    (entry : Name) (kind : Kind) (data : List (Name × Value)) (r : Res (List Ev)) (hr : r ≠ .fuel) :
+    ((∃ f, renderInlineReal files entry kind data f = r) ↔ (∃ f, renderRuntime files entry kind data f = r)) ∧
+    (∀ f, renderRuntime files entry kind data f = r → renderInlineReal files entry kind data f = r) := by
+  have hm := marker_free_same_results files entry kind data r hr
+  refine ⟨⟨fun ⟨f, h⟩ => ?_, fun ⟨f, h⟩ => ⟨f, ?_⟩⟩, fun f h => ?_⟩
+  · obtain ⟨g, hg⟩ := hm.2 f h
+    exact ⟨g, by rw [← inline_eq_runtime_partial T files hH]; exact hg⟩
+  · exact hm.1 f (by rw [inline_eq_runtime_partial T files hH]; exact h)
+  · exact hm.1 f (by rw [inline_eq_runtime_partial T files hH]; exact h)
+
 /-! ## what an include means (run-time semantics; by `inline_eq_runtime_partial` the inline mode
 produces the same events for whole templates) -/
 
@@ -137,9 +205,9 @@ fallback plays no role when the target exists -/
 theorem include_replaced_by_target (files : Files) (J : RJ) (rng : Rng) (st : St)
     (h : List Char) (cls : Kind) (hasFb : Bool) (fb : List Node) (pos name : Name) (body rest : List Node)
     (hres : resolve pos h = some name) (hfind : files.find name = some ⟨cls, some body⟩) :
-    renderL false files J rng (.include (.static h) cls hasFb fb pos :: rest) st =
+    renderL .runtime files J rng (.include (.static h) cls hasFb fb pos :: rest) st =
       (J .full body st).bind fun r1 =>
-        (renderL false files J rng rest r1.2).bind fun r2 => .ok (r1.1 ++ r2.1, r2.2) := by
+        (renderL .runtime files J rng rest r1.2).bind fun r2 => .ok (r1.1 ++ r2.1, r2.2) := by
   rw [renderL_cons, renderN_include]
   simp [evalHref, hres, loadT, loadRaw, hfind]
 
@@ -147,7 +215,7 @@ theorem include_replaced_by_target (files : Files) (J : RJ) (rng : Rng) (st : St
 theorem fallback_iff_missing (files : Files) (J : RJ) (rng : Rng) (st : St)
     (h : List Char) (cls : Kind) (fb : List Node) (pos name : Name)
     (hres : resolve pos h = some name) (hfind : files.find name = none) :
-    renderN false files J rng (.include (.static h) cls true fb pos) st = renderL false files J .full fb st := by
+    renderN .runtime files J rng (.include (.static h) cls true fb pos) st = renderL .runtime files J .full fb st := by
   rw [renderN_include]
   simp [evalHref, hres, loadT, loadRaw, hfind]
 
@@ -155,7 +223,7 @@ theorem fallback_iff_missing (files : Files) (J : RJ) (rng : Rng) (st : St)
 theorem missing_without_fallback_raises (files : Files) (J : RJ) (rng : Rng) (st : St)
     (h : List Char) (cls : Kind) (fb : List Node) (pos name : Name)
     (hres : resolve pos h = some name) (hfind : files.find name = none) :
-    renderN false files J rng (.include (.static h) cls false fb pos) st = .err .notFound := by
+    renderN .runtime files J rng (.include (.static h) cls false fb pos) st = .err .notFound := by
   rw [renderN_include]
   simp [evalHref, hres, loadT, loadRaw, hfind]
 
@@ -196,6 +264,7 @@ def wEager : Files :=
 
 theorem eager_syntax_witness :
     renderInline wEager nA .markup [(['s', '0'], .str [])] 5 = .err .syntaxErr ∧
+    renderInlineReal wEager nA .markup [(['s', '0'], .str [])] 5 = .err .syntaxErr ∧
     renderRuntime wEager nA .markup [(['s', '0'], .str [])] 5 = .ok [.start ['d'], .stop ['d']] := by
   decide +kernel
 
@@ -213,6 +282,7 @@ def wRange : Files :=
 
 theorem match_range_witness :
     renderInline wRange nA .markup [] 5 = .ok [.start ['d'], .text ['X'], .stop ['d']] ∧
+    renderInlineReal wRange nA .markup [] 5 = .ok [.start ['d'], .text ['X'], .stop ['d']] ∧
     renderRuntime wRange nA .markup [] 5 = .err .notFound := by
   decide +kernel
 
@@ -253,6 +323,8 @@ example : renderInline exFiles nA .markup exData 9 = renderRuntime exFiles nA .m
 example : (match renderRuntime exFiles nA .markup exData 9 with | .ok evs => evs.length | _ => 0) = 20 := by decide +kernel
 -- not enough fuel for the two nested template entries: both modes give up
 example : renderInline exFiles nA .markup exData 2 = .fuel ∧ renderRuntime exFiles nA .markup exData 2 = .fuel := by decide +kernel
+-- the code's inline mode (no markers) spends no fuel on inlined templates: it gets by with less
+example : renderInlineReal exFiles nA .markup exData 2 = renderRuntime exFiles nA .markup exData 9 := by decide +kernel
 end nonvacuous
 
 end Genshi.Props.C11
